@@ -125,6 +125,23 @@ def run(rep, tier, seed, model_ok=True, effort=1):
                 inp = dict(version_pattern=vp, current_version=cur, args=args, commit=commit, exit=code, logs=logs[-4:])
                 if code == 0 or after != before or mut or (commit and prj.hooks_log()):
                     rep.violation("a rejected new version did not stop the update (exit %s, files changed: %s, vcs: %s)" % (code, after != before, mut), input=inp, **{"class": "rejected-not-stopped"})
+    # a file pattern made only of optional text (legacy {release}: the empty string "matches" everywhere) that occurs nowhere in its file is a
+    # pattern without a match like any other
+    for commit in (False, True):
+        prj = project.TempProject("{pycalver}", "v202001.0042-beta", files={"a.txt": ["ver = {pycalver}"], "b.txt": ["{release}"]},
+                                  contents={"b.txt": "first line\nnothing that looks like a release tag here\nlast line\n"}, commit=commit, tag=commit,
+                                  vcs="fakegit" if commit else None, vcs_cfg=dict(tags=[], status="", remote=None) if commit else None)
+        with prj:
+            before = prj.snapshot()
+            for extra in ([], ["--dry"]):
+                code, out, logs, exc = prj.run(impl, ["update", "--no-fetch", "--date", "2020-03-01"] + extra)
+                after = prj.snapshot()
+                rep.case(("all-optional-pattern", commit, tuple(extra)))
+                if code == 0 or after != before:
+                    rep.violation("update exits %s although a configured pattern ({release}) has no match in its file%s" % (code, "; files changed" if after != before else ""),
+                                  input=dict(version_pattern="{pycalver}", file_patterns={"b.txt": ["{release}"]}, args=["update", "--no-fetch", "--date", "2020-03-01"] + extra, exit=code, logs=logs[-3:]),
+                                  **{"class": "fault-exit0"})
+                    break
     # the new version already exists as a tag: refused before anything is written, whatever flags accompany --set-version
     for extra in ([], ["--ignore-vcs-tag"], ["--ignore-vcs-tag", "--allow-dirty"]):
         prj = project.TempProject("MAJOR.MINOR.PATCH", "1.0.4", files={"a.txt": ["ver = {version}"]}, commit=True, tag=True, vcs="fakegit",
